@@ -246,3 +246,93 @@ func init() {
 		os.Exit(0)
 	}
 }
+
+func init() {
+	// vsa narrow <pkgs...>: additions/products carried out in 8/16-bit integer types whose result reaches a size or a bound
+	if len(os.Args) > 2 && os.Args[1] == "narrow" {
+		p := Load(LoadOpts{Dir: repoDir(), Patterns: []string{"./..."}, ModPath: modPath, MinPkgs: 13})
+		pk := map[string]bool{}
+		for _, a := range os.Args[2:] {
+			pk[p.pkgPath(a)] = true
+		}
+		for _, f := range p.ModFns() {
+			if fnPkg(f) == nil || !pk[fnPkg(f).Path()] {
+				continue
+			}
+			for _, b := range f.Blocks {
+				for _, in := range b.Instrs {
+					bo, ok := in.(*ssa.BinOp)
+					if !ok || bo.Op != token.ADD && bo.Op != token.MUL && bo.Op != token.SHL {
+						continue
+					}
+					bits, _, ok := intKind(bo.Type())
+					if !ok || bits > 16 {
+						continue
+					}
+					if _, c1 := bo.X.(*ssa.Const); c1 {
+						if _, c2 := bo.Y.(*ssa.Const); c2 {
+							continue
+						}
+					}
+					// uses
+					use := narrowUse(bo, 0, map[ssa.Value]bool{})
+					if use != "" {
+						fmt.Printf("%s %s: %s used as %s\n", p.IPos(bo), p.FnName(f), bo.String(), use)
+					}
+				}
+			}
+		}
+		os.Exit(0)
+	}
+}
+
+func narrowUse(v ssa.Value, depth int, seen map[ssa.Value]bool) string {
+	if depth > 6 || seen[v] {
+		return ""
+	}
+	seen[v] = true
+	refs := v.Referrers()
+	if refs == nil {
+		return ""
+	}
+	for _, in := range *refs {
+		switch x := in.(type) {
+		case *ssa.MakeSlice:
+			return "make size"
+		case *ssa.Slice:
+			if x.Low == v || x.High == v {
+				return "slice bound"
+			}
+		case *ssa.IndexAddr:
+			if x.Index == v {
+				return "index"
+			}
+		case *ssa.Index:
+			if x.Index == v {
+				return "index"
+			}
+		case *ssa.Return:
+			return "returned value"
+		case *ssa.Convert:
+			if u := narrowUse(x, depth+1, seen); u != "" {
+				return u
+			}
+		case *ssa.Phi:
+			if u := narrowUse(x, depth+1, seen); u != "" {
+				return u
+			}
+		case *ssa.BinOp:
+			switch x.Op {
+			case token.LSS, token.LEQ, token.GTR, token.GEQ:
+				return "comparison operand"
+			case token.ADD, token.SUB, token.MUL:
+				if b, _, ok := intKind(x.Type()); ok && b > 16 {
+					if u := narrowUse(x, depth+1, seen); u != "" {
+						return u
+					}
+				}
+			}
+		}
+	}
+	return ""
+}
